@@ -70,9 +70,13 @@ def run(tier, seed):
     ]
     return _dg.run(
         "C09", tier, seed, mc=mc, cfgs=cases(tier, seed),
+        apalache=("CursorInd", [("Init=>IndInv", "Init", "IndInv", 0), ("IndInv inductive", "IndInit", "IndInv", 1),
+                                ("IndInv=>NoClampWhenDivides", "IndInit", "NoClampWhenDivides", 0)]),
         rule="MC: Batching.tla all 1<=B<=N<=MaxN, all active prefixes, all permutations at every reshuffle; "
              "traces: every 1<=b<=n<=N for each store kind (times, interior, border rows, obs indices, parameter keys, "
-             "multi-network obs), 3 epochs + 2 draws, with and without an active RAR mask; distinct = distinct cfg",
+             "multi-network obs), 3 epochs + 2 draws, with and without an active RAR mask; + Apalache: the cursor / capacity arithmetic "
+             "(CursorInd.tla) for ALL sizes by an inductive invariant (window inside the store, cursor multiple of b, no clamping when b divides "
+             "the active count, active count <= store); distinct = distinct cfg",
         assumptions=[
             "stored values are identified by exact bytes; seeds producing duplicate floats are skipped (counted)",
             "PRNG outcomes are sampled (seeded) in the traces and exhausted (all permutations) in the model",
